@@ -1,8 +1,122 @@
 /-
-C04 — property theorems (stub; see DESIGN.md §6).
+C04 — Training is total and numerically well-defined on every valid data set.
+
+In an ordered field "finite" is automatic; what can go wrong is a division by
+zero (Python raises `ZeroDivisionError` on float/float, numpy yields inf/NaN).
+The theorems show that under each model's own validation and the property's
+standing guards every denominator the kernels divide by is strictly positive
+for every weight that training can produce — the proofs *use* C02's vigilance
+bounds.  Overflow/underflow of `exp`, `1/σ²`, LAPACK conditioning are float-only
+and outside these theorems (named in the trusted base; probed by the check).
 -/
-import ArtModel.Basic
+import ArtProofs.Kernels
 
 namespace Art.C04
+
+set_option linter.unusedSectionVars false
+
+variable {α : Type} [Field α] [LinearOrder α] [IsStrictOrderedRing α]
+
+/-- entries of a valid sample / weight lie in `[0,1]` -/
+def InUnit (v : List α) : Prop := ∀ t ∈ v, 0 ≤ t ∧ t ≤ 1
+
+theorem vsum_nonneg_of_inUnit (v : List α) (h : InUnit v) : 0 ≤ vsum v := by
+  induction v with
+  | nil => simp [vsum]
+  | cons a v ih =>
+    simp only [vsum]
+    have h1 := (h a (by simp)).1
+    have h2 := ih (fun t ht => h t (by simp [ht]))
+    linarith
+
+/-- **Fuzzy ART activation is defined**: the denominator `alpha + |w|` is positive
+whenever the weight respects the vigilance bound `|w| ≥ rho·d` (C02) and either
+`rho > 0`, or `alpha > 0` with non-negative weights (the literature's standing
+assumption for `rho = 0`). -/
+theorem fuzzy_choice_defined (alpha ρ d : α) (w : List α) (hα : 0 ≤ alpha) (hd : 0 < d)
+    (hbound : ρ * d ≤ vsum w) (hguard : 0 < ρ ∨ (0 < alpha ∧ 0 ≤ vsum w)) :
+    0 < alpha + vsum w := by
+  rcases hguard with h | ⟨h1, h2⟩
+  · have : 0 < ρ * d := mul_pos h hd
+    linarith
+  · linarith
+
+/-- Fuzzy ART match value divides by the original dimension `d ≥ 1`. -/
+theorem fuzzy_match_defined (d : Nat) (hd : 1 ≤ d) : (0 : α) < (d : α) := by
+  exact_mod_cast hd
+
+/-- **ART1 match and update are defined**: `|x| > 0` for non-zero binary rows, and
+`L − 1 + |t'| > 0` because the new template covers at least a `rho` fraction of
+`x` (`|t'| ≥ rho |x| > 0`) or `L > 1`. -/
+theorem art1_update_defined (L ρ nx nt : α) (hL : 1 ≤ L) (hx : 0 < nx) (hcover : ρ * nx ≤ nt)
+    (hnt : 0 ≤ nt) (hguard : 0 < ρ ∨ 1 < L) : 0 < L - 1 + nt := by
+  rcases hguard with h | h
+  · have : 0 < ρ * nx := mul_pos h hx
+    linarith
+  · linarith
+
+/-- ART1 new-category scaling `L / (L − 1 + |x|)` is defined for non-zero binary rows. -/
+theorem art1_new_defined (L nx : α) (hL : 1 ≤ L) (hx : 0 < nx) : 0 < L - 1 + nx := by
+  linarith
+
+/-- **Hypersphere ART activation is defined**: `r̂ − R + alpha > 0` for every radius
+within the vigilance bound `R ≤ r̂(1 − rho)` (C02), given `r̂ > 0` and `rho > 0`
+or `alpha > 0`. -/
+theorem sphere_choice_defined (alpha ρ rhat R : α) (hα : 0 ≤ alpha) (hr : 0 < rhat) (hρ0 : 0 ≤ ρ)
+    (hbound : R ≤ rhat * (1 - ρ)) (hguard : 0 < ρ ∨ 0 < alpha) : 0 < rhat - R + alpha := by
+  rcases hguard with h | h
+  · have : 0 < rhat * ρ := mul_pos hr h
+    nlinarith
+  · have : 0 ≤ rhat * ρ := mul_nonneg (le_of_lt hr) hρ0
+    nlinarith
+
+/-- **Ellipsoid ART activation is defined**: `r̂ − 2R + alpha > 0` for `R ≤ r̂(1 − rho)/2`. -/
+theorem ellipsoid_choice_defined (alpha ρ rhat R : α) (hα : 0 ≤ alpha) (hr : 0 < rhat) (hρ0 : 0 ≤ ρ)
+    (hbound : R ≤ rhat * (1 - ρ) / (1 + 1)) (hguard : 0 < ρ ∨ 0 < alpha) :
+    0 < rhat - (1 + 1) * R + alpha := by
+  have h2 : (1 + 1) * R ≤ rhat * (1 - ρ) := by
+    have := mul_le_mul_of_nonneg_left hbound (by norm_num : (0:α) ≤ 1 + 1)
+    rwa [mul_div_cancel₀ _ (by norm_num : (1 + 1 : α) ≠ 0)] at this
+  rcases hguard with h | h
+  · have : 0 < rhat * ρ := mul_pos hr h
+    nlinarith
+  · have : 0 ≤ rhat * ρ := mul_nonneg (le_of_lt hr) hρ0
+    nlinarith
+
+/-- **Hypersphere / Ellipsoid centre update never divides 0/0** (repaired defect
+F02): the shrink factor is taken as 0 exactly when the distance is not positive,
+so the only division `min(R,dist)/dist` happens with `dist > 0`; and when the
+distance is 0 the centre provably does not move. -/
+theorem sphere_update_defined (β : α) (x w : List α) [Transc α]
+    (h : ¬ 0 < sphDist x w) :
+    sphUpdate β x w =
+      vadd (sphCentre w) (smul 0 (smul (β / (1 + 1)) (vsub x (sphCentre w)))) ++
+        [sphRadius w + β / (1 + 1) * (max (sphRadius w) (sphDist x w) - sphRadius w)] := by
+  unfold sphUpdate
+  simp [h]
+
+/-- **Gaussian ART variances stay positive**: `σ'² = (1 − 1/n')σ² + (1/n')(μ' − x)²`
+with `n' = n + 1 ≥ 2` keeps `σ'² ≥ (1 − 1/n')σ² > 0`, so `1/σ'²` is defined. -/
+theorem gaussian_sigma_positive (n σ2 dev2 : α) (hn : 1 ≤ n) (hσ : 0 < σ2) (hdev : 0 ≤ dev2) :
+    0 < (1 - 1 / (n + 1)) * σ2 + 1 / (n + 1) * dev2 := by
+  have hn1 : 0 < n + 1 := by linarith
+  have h1 : 0 < 1 - 1 / (n + 1) := by
+    rw [sub_pos, div_lt_one hn1]; linarith
+  have h2 : 0 ≤ 1 / (n + 1) * dev2 := mul_nonneg (by positivity) hdev
+  have h3 : 0 < (1 - 1 / (n + 1)) * σ2 := mul_pos h1 hσ
+  linarith
+
+/-- The Gaussian/Bayesian prior `n_j / Σ n` divides by a positive count. -/
+theorem prior_defined (counts : List α) (h : ∀ c ∈ counts, 1 ≤ c) (hne : counts ≠ []) : 0 < counts.sum := by
+  cases counts with
+  | nil => exact absurd rfl hne
+  | cons c cs =>
+    have hc := h c (by simp)
+    have : 0 ≤ cs.sum := List.sum_nonneg (fun t ht => by have := h t (by simp [ht]); linarith)
+    simp only [List.sum_cons]; linarith
+
+/-- Without the guard the denominator can vanish: `rho = 0`, `alpha = 0` and an
+all-zero weight (the literature's excluded case), shown over ℚ. -/
+example : (0 : ℚ) + vsum ([0, 0] : List ℚ) = 0 := by norm_num [vsum]
 
 end Art.C04
